@@ -54,57 +54,6 @@ pub fn pack(values: &[(Val, Val)], container: usize) -> Project {
     }
 }
 
-pub fn check_project(rep: &Reporter, part: &str, p: &Project, dir: &std::path::Path, keys_total: &Mutex<u64>) {
-    let m = Model::new(p);
-    let out = run_project(p, dir, default_opts());
-    let expect = expectation(&m);
-    match (&expect, &out) {
-        (Expect::Accept, Outcome::Ok(parsed)) => {
-            let mut stats = CmpStats { keys_compared: 0, renders: 0, defaulted: 0 };
-            let discs = compare_accepted(&m, parsed, &mut stats);
-            *keys_total.lock().unwrap() += stats.keys_compared;
-            rep.trans(stats.renders);
-            for d in discs {
-                let src = source_of(p, &d.ns, &d.loc, &d.path);
-                rep.violation(
-                    format!("C01/{part}: value={src} loc={} key={}{}: {}", d.loc, d.ns.clone().map(|n| n + ":").unwrap_or_default(), d.path.join("."), d.what),
-                    json!({"project": p.describe(), "discrepancy": d.what}),
-                );
-            }
-        }
-        (Expect::Accept, other) => {
-            // find the culprit keys by running each one alone (slow path)
-            let mut culprits = 0;
-            for ((ns, loc), entries) in &p.files {
-                for (k, v) in entries {
-                    if matches!(v, Val::Sub(_)) {
-                        continue;
-                    }
-                    let mut single = Project::new(Config::simple("en", &["en"]));
-                    single.set_file(None, "en", vec![(k.clone(), v.clone())]);
-                    let o = run_project(&single, dir, default_opts());
-                    if !matches!(o, Outcome::Ok(_)) {
-                        culprits += 1;
-                        rep.violation(
-                            format!("C01/{part}: value={} rejected: {}", val_json(v), o.short()),
-                            json!({"file": format!("{:?}/{}", ns, loc), "key": k, "outcome": o.short()}),
-                        );
-                    }
-                }
-            }
-            if culprits == 0 {
-                rep.violation(
-                    format!("C01/{part}: valid project rejected: {} :: {}", other.short(), vmodel::report::truncate(&p.describe(), 400)),
-                    json!({"project": p.describe(), "outcome": other.short()}),
-                );
-            }
-        }
-        (e, o) => {
-            vmodel::report::machinery_fail(&format!("C01 generator produced a project the model does not accept: {e:?} / {}", o.short()));
-        }
-    }
-}
-
 pub fn run(tier: Tier) -> i32 {
     let rep = Reporter::new("C01", "L1", tier);
     let scratch = Scratch::new("c01");
@@ -236,7 +185,10 @@ pub fn run(tier: Tier) -> i32 {
     let n_values = values.len();
     par_for(projects.len(), |w, i| {
         let (part, p) = &projects[i];
-        check_project(&rep, part, p, &scratch.worker(w), &keys_total);
+        let (e, _) = check_project(&rep, "C01", part, p, &scratch.worker(w), &keys_total);
+        if e != Expect::Accept {
+            vmodel::report::machinery_fail(&format!("generator produced a project the model does not accept: {e:?}"));
+        }
         rep.eval(p.files.values().map(|f| count_leaves(f)).sum::<u64>());
     });
     rep.nontriv(n_values as u64);
